@@ -233,6 +233,8 @@ class RDSystem :
         
     @state.setter
     def state(self, v) :
+        if (isarray(v) or type(v) == UnitArray) and len(v) != self.state_size() :
+            raise ValueError("state must hold one value per species and cell ("+str(self.state_size())+" values, "+str(len(v))+" given).")
         if isarray(v) :
             self._state = v = UnitArray(v, Units(self.units_system, quantity_units_dimensions()))
         elif type(v) == UnitArray : 
@@ -260,7 +262,8 @@ class RDSystem :
         if not isarray(v) : 
             raise ValueError("chemostat map must be an array, a dict or None")
         v = np.array(v, dtype=int)
-                
+        if len(v) != self.state_size() :
+            raise ValueError("chemostat map must hold one flag per species and cell ("+str(self.state_size())+" values, "+str(len(v))+" given).")
         self._chemostats = v
 
     @property 
